@@ -1067,6 +1067,15 @@ pub fn gen_c12(rng: &mut Rng) -> Value {
         };
         steps.push(st);
     }
+    if rng.chance(1, 8) {
+        // something that is not the library's lies in the cache directory when it is cleared
+        let at = rng.idx(steps.len() + 1);
+        steps.insert(at, json!({"k":"env","act":"write_file","path":*rng.pick(&["$C/stray-file", "$C/content-v2/stray", "$C/index-v5/stray", "$C/tmp/stray"]),"hex":"00"}));
+        steps.push(json!({"k":"api","op":"clear"}));
+        if rng.chance(1, 2) {
+            steps.push(json!({"k":"api","op":"write","entry":"write","key":0,"val":0}));
+        }
+    }
     steps.push(json!({"k":"api","op":"list"}));
     scenario("C12", keys, vals, steps, rng)
 }
